@@ -65,3 +65,33 @@ theorem admissible_spelling (sp : Style) (hsp : sp.ok = true) (m : Msg) (hv : va
   · exact spellElem_ending sp hsp (toXml m) hs
 
 end Indi.Xml
+
+namespace Indi.Xml
+open Indi Indi.Spec.MsgValid Indi.Buf
+
+/-- a stream of messages, each in its own spelling, each preceded by arbitrary opener-free junk (an XML declaration,
+comments, white space, noise) -/
+def spelledSegs (items : List (Style × Msg × Str)) : List (Seg Msg) :=
+  items.map fun it => { gap := it.2.2, body := spellElem it.1 (toXml it.2.1), msg := C03.canon it.2.1 }
+
+/-- **C02 for foreign spellings**: feed ANY stream of valid wire-safe messages, each written in ANY spelling style and
+preceded by ANY opener-free junk, each no longer than the threshold (any length when it is disabled), in ANY pieces:
+what has been delivered is exactly the normal forms of the messages whose last character has arrived, in order, once -/
+theorem C02_spelled_stream (threshold : Option Nat) (items : List (Style × Msg × Str)) (final : Str)
+    (h : ∀ it ∈ items, it.1.ok = true ∧ valid Generated.registry it.2.1 = true ∧ wireSafe it.2.1 = true ∧
+      NoOpener (tagsOf Generated.registry) it.2.2 ∧ fits threshold (it.2.2 ++ spellElem it.1 (toXml it.2.1)))
+    (hf : NoOpener (tagsOf Generated.registry) final ∧ fits threshold final)
+    (pieces : List Str) (hpre : pieces.flatten <+: encode (spelledSegs items) final) :
+    (session (parseMsg Generated.registry) (tagsOf Generated.registry) threshold [] pieces).1.flatten =
+      ((spelledSegs items).take (countDone (spelledSegs items) pieces.flatten.length)).map (·.msg) := by
+  have hok : StreamOk (parseMsg Generated.registry) (tagsOf Generated.registry) threshold (spelledSegs items) final := by
+    refine ⟨?_, hf⟩
+    intro sg hsg
+    simp only [spelledSegs, List.mem_map] at hsg
+    obtain ⟨it, hit, rfl⟩ := hsg
+    obtain ⟨h1, h2, h3, h4, h5⟩ := h it hit
+    exact ⟨admissible_spelling it.1 h1 it.2.1 h2 h3, h4, h5⟩
+  exact C02_abstract (parseMsg Generated.registry) (tagsOf Generated.registry) threshold
+    (parseMsg_needsOpener Generated.registry) (tagsOf_generated ▸ generated_tagsOk) (spelledSegs items) final hok pieces hpre
+
+end Indi.Xml
